@@ -27,7 +27,7 @@ ASSUMPTIONS = [
     'writability is delivered by a scripted poller (BasePoller subclass) as one _write event per registered writer per round',
     'EAGAIN == EWOULDBLOCK on this platform',
 ]
-REQUIRED = ['unrelated_component_left_the_tree_while_data_was_buffered', 'payload_written_after_the_buffer_had_drained_completely', 'endpoint_server', 'endpoint_client', 'endpoint_file', 'partial_send_requeued', 'accept_zero', 'eagain_injected', 'eintr_injected',
+REQUIRED = ['file_component_opened_again_after_its_close', 'unrelated_component_left_the_tree_while_data_was_buffered', 'payload_written_after_the_buffer_had_drained_completely', 'endpoint_server', 'endpoint_client', 'endpoint_file', 'partial_send_requeued', 'accept_zero', 'eagain_injected', 'eintr_injected',
             'enobufs_injected', 'fatal_injected', 'close_while_buffered', 'close_after_drain', 'two_connections_interleaved', 'two_clients_on_one_channel', 'connection_on_descriptor_number_zero', 'file_open_for_reading_and_writing', 'thousands_of_payloads_queued_at_once', 'more_payloads_queued_than_the_configured_backlog', 'empty_payload',
             'write_after_close_request', 'server_wide_close', 'text_payload_multibyte', 'close_requested_by_peer_eof', 'client_reconnected_after_end', 'client_reconnected_after_unsent_backlog']
 REQUIRED_OBLIGATIONS = ['PREFIX', 'ALL_DELIVERED', 'CLOSE_WAITS_FOR_BUFFER', 'NO_SEND_AFTER_CLOSE', 'FATAL_SIGNALLED', 'CLOSE_HAPPENS']
@@ -255,8 +255,11 @@ def make_world(endpoint, scripts, backlog=None, fmode='w', fdnum=None):
         tmp.close()
         real_write = os.write
 
+        holder = [sc]       # (the script the OS double follows; a second session of the same File - case option 'reopen' - brings its own)
+        W['file_script'] = holder
+
         def fd_write(fd, data):
-            n = sc.send(data)
+            n = holder[0].send(data)
             if n:
                 real_write(fd, bytes(data)[:n])
             return n
@@ -508,6 +511,53 @@ def run_case(case):
                     counts['CLOSE_HAPPENS'] += 1
                     if not sc2.closed:
                         problems.append(('CLOSE_HAPPENS', {'connection': 'second connection of the same client', 'send_log': sc2.log[-8:]}))
+        if endpoint == 'file' and case.get('reopen') and W['comp'].closed and ok and not problems:
+            # the same File component is opened again (its _open event, with another file): the new session carries exactly what is written
+            # to it, payload after payload with the buffer drained in between, and ends when its close is asked for - not before
+            import circuits.io.file as fmod2
+            sc2 = Script(case.get('script2', []))
+            sc2.signals = W['signals']
+            W['file_script'][0] = sc2
+            tmp2 = tempfile.NamedTemporaryFile(prefix='vc11b-', delete=False)
+            tmp2.close()
+            try:
+                n_sig = len(W['signals'])
+                W['root'].fire(fmod2._open(tmp2.name, case.get('fmode2', 'w')), 'fil')
+                W['settle']()
+                if not W['comp'].closed:
+                    marks.add('file_component_opened_again_after_its_close')
+                    second = [b'second-1;', b'second-22;', b'', b'second-333.']
+                    for k2, d in enumerate(second):
+                        if W['comp'].closed:
+                            counts['ALL_DELIVERED'] += 1
+                            problems.append(('ALL_DELIVERED', {'connection': 'second session of the same File', 'note': 'the File closed itself although no close was '
+                                                               'requested in this session and no write failed', 'before_write': k2, 'signals': W['signals'][n_sig:]}))
+                            break
+                        W['write'](0, d)
+                        for _r in range(6 + 2 * len(sc2.outcomes)):
+                            if not W['pump']():
+                                break
+                    else:
+                        W['close'](0)
+                        for _r in range(12 + 2 * len(sc2.outcomes)):
+                            if not W['pump']():
+                                break
+                        counts['PREFIX'] += 1
+                        with open(tmp2.name, 'rb') as fh:
+                            acc2 = fh.read()
+                        want2 = b''.join(second)
+                        if want2[:len(acc2)] != acc2 or (not sc2.dead and acc2 != want2):
+                            problems.append(('PREFIX', {'connection': 'second session of the same File', 'accepted': _short(acc2), 'written_to_it': _short(want2),
+                                                        'send_log': sc2.log[-8:]}))
+                        if not sc2.dead:
+                            counts['CLOSE_HAPPENS'] += 1
+                            if not W['comp'].closed:
+                                problems.append(('CLOSE_HAPPENS', {'connection': 'second session of the same File', 'send_log': sc2.log[-8:]}))
+            finally:
+                try:
+                    os.unlink(tmp2.name)
+                except OSError:
+                    pass
         exc = [s for s in W['signals'] if s.startswith('exception:')]
         if exc and not problems:
             problems.append(('HANDLER_RAISED', {'exceptions': exc[:3]}))
@@ -600,6 +650,9 @@ def corpus():
             for close_at in (None, 1, 2):
                 for pb in (True, False, 'drain'):
                     cs.append({'endpoint': 'file', 'fmode': fm, 'payloads': 'm', 'script': script, 'close_at': close_at, 'pump_between': pb})
+                    if pb is not True:
+                        cs.append({'endpoint': 'file', 'fmode': fm, 'payloads': 'm', 'script': script, 'close_at': close_at, 'pump_between': pb, 'reopen': True,
+                                   'script2': ['P', 'EAGAIN', 'P'] if close_at else [], 'fmode2': 'w' if fm != 'a+' else 'a'})
     # an unrelated component leaves the tree while data is buffered (between writes, before anything was polled / after partial sends)
     for endpoint in ('server', 'client', 'file'):
         for script in (['P', 'EAGAIN', 'P'], ['EAGAIN', 'Z', 'P', 'P']):
@@ -645,6 +698,10 @@ def gen_case(rng):
         case['bystander_leaves'] = [rng.randint(0, len(PAYLOAD_SETS[pset]) - 1), rng.choice(['leaf', 'branch'])]
     if endpoint == 'file' and rng.random() < 0.5:
         case['fmode'] = rng.choice(['w+', 'a+', 'r+', 'a'])
+    if endpoint == 'file' and rng.random() < 0.3:
+        case['reopen'] = True
+        case['script2'] = [rng.choice(OUTCOMES[:6]) for _ in range(rng.randint(0, 5))]
+        case['fmode2'] = rng.choice(['w', 'a', 'w+'])
     if endpoint != 'file' and rng.random() < 0.1:
         case['fdnum'] = 0
     if case['endpoint'] == 'server' and rng.random() < 0.3:
